@@ -2680,6 +2680,96 @@ def run_group_forms(cx):
     cx.flush()
 
 
+
+# ----------------------------------------------------------------------------------------------
+# The table returned by `.metadata` is a COPY (editing it must not move any tag to another element), and set_info given a LABELLED table
+# (Series / DataFrame carrying the elements' own labels in another order) either refuses or attaches BY LABEL (fourth-round seeds C13-7, C13-8)
+def run_table_copy_and_labelled_set_info(cx):
+    import itertools
+    import pandas as pd
+    nap = _nap()
+    nap = nap[0] if isinstance(nap, tuple) else nap
+    rng = random.Random(cx.seed * 13 + 11)
+    ivs = [(2 * k * U, (2 * k + 1) * U) for k in (1, 3, 4, 6)]
+
+    def objects():
+        yield "IntervalSet", mk_ep(nap, ivs), list(range(len(ivs))), "tag", [s_ // U for s_, _ in ivs]
+        for labs in (["c", "a", "b"], [5, 2, 9], ["10", "9", "100"]):
+            t = G.arr([k * U for k in range(4)])
+            tags = [10 * (j + 1) for j in range(len(labs))]
+            fr = nap.TsdFrame(t, np.stack([np.full(4, float(v)) for v in tags], 1), columns=labs, metadata={"tag": tags})
+            yield "TsdFrame", fr, labs, "tag", tags
+        for keys in ([3, 7, 12], [12, 3, 7]):
+            g = nap.TsGroup({k: nap.Ts(G.arr([(16 * m + k % 16) * U for m in range(3)])) for k in keys}, time_support=nap.IntervalSet(-1.0, 10.0),
+                            metadata=pd.DataFrame({"tag": [10 * k for k in sorted(keys)]}, index=sorted(keys)))
+            yield "TsGroup", g, sorted(keys), "tag", [10 * k for k in sorted(keys)]
+
+    def tags_by_label(obj, cls, labels, col):
+        md = obj.metadata
+        return [md.loc[l, col] for l in labels]
+
+    for cls, obj, labels, col, want in objects():
+        inp = {"class": cls, "labels": [str(l) for l in labels]}
+        cx.res.case(("table_copy", cls, str(labels)), nontrivial=True)
+        # 1. edit the returned table in place in several ways; the object must not notice
+        edits = {"sort_descending": lambda m: m.sort_values(col, ascending=False, inplace=True), "overwrite_cell": lambda m: m.__setitem__(col, list(reversed(list(m[col])))),
+                 "drop_column": lambda m: m.drop(columns=[col], inplace=True), "reindex_rows": lambda m: m.sort_index(ascending=False, inplace=True)}
+        for ename, ed in edits.items():
+            cx.res.count("table_copy:" + ename)
+            m = obj.metadata
+            try:
+                ed(m)
+            except Exception:
+                cx.res.count("table_copy:edit_refused")       # (a read-only table is fine too)
+                continue
+            try:
+                got = [same_value(a, b) for a, b in zip(tags_by_label(obj, cls, labels, col), want)]
+                ok = all(got)
+                if ok and cls == "IntervalSet":
+                    ok = attach_err(obj, ivs, "same") is None and attach_err(obj[[0, 1]], ivs, "same") is None and attach_err(obj[np.array([False, True, True, False])], ivs, "same") is None
+                elif ok and cls == "TsGroup":
+                    sub = obj[[labels[-1], labels[0]]]
+                    ok = [sub.metadata.loc[l, col] for l in (labels[0], labels[-1])] == [want[0], want[-1]]
+                elif ok:
+                    sub = obj.loc[[labels[-1], labels[0]]]
+                    ok = [sub.metadata.loc[l, col] for l in (labels[-1], labels[0])] == [want[-1], want[0]]
+            except Exception as ex:
+                ok = False
+                got = "reading the object after the edit raised %s: %s" % (type(ex).__name__, str(ex)[:80])
+            if not ok:
+                cx.viol({"op": "metadata_property", "part": "editing_the_returned_table_changes_the_object", "class": cls, "edit": ename},
+                        "editing the table returned by .metadata (%s) moved / removed the metadata of the object itself" % ename, inp, impl=str(got), expected=want)
+                break
+        # 2. a labelled table in another order: refused, or attached by label
+        fresh = {"IntervalSet": lambda: mk_ep(nap, ivs)}.get(cls)
+        perms = [p_ for p_ in itertools.permutations(range(len(labels))) if list(p_) != list(range(len(labels)))]
+        for form in ("series_kw", "dataframe"):
+            for p_ in rng.sample(perms, min(3, len(perms))):
+                cx.res.count("labelled_set_info:" + form)
+                o2 = fresh() if fresh else obj
+                name = "x%s%d" % (form[0], perms.index(p_))
+                vals = {labels[i]: 1000 + i for i in range(len(labels))}
+                order = [labels[i] for i in p_]
+                try:
+                    if form == "series_kw":
+                        o2.set_info(**{name: pd.Series([vals[l] for l in order], index=order)})
+                    else:
+                        o2.set_info(pd.DataFrame({name: [vals[l] for l in order]}, index=order))
+                except Exception:
+                    cx.res.count("labelled_set_info:refused")
+                    continue
+                cx.res.count("labelled_set_info:accepted")
+                try:
+                    got = [int(v) for v in tags_by_label(o2, cls, labels, name)]
+                except Exception as ex:
+                    got = "raised %s" % type(ex).__name__
+                if got != [vals[l] for l in labels]:
+                    cx.viol({"op": "set_info", "part": "labelled_table_attached_by_position", "class": cls, "form": form},
+                            "set_info accepted a %s whose index names the elements in another order and attached the values by POSITION, not to the elements they were labelled with" % form,
+                            dict(inp, order=[str(l) for l in order]), impl=got, expected=[vals[l] for l in labels])
+                    break
+
+
 def run(res, tier, seed):
     warnings.simplefilter("ignore")
     cx = Ctx(res, tier, seed)
@@ -2711,9 +2801,11 @@ def run(res, tier, seed):
                 "arguments), set_info (dict, DataFrame, keyword Series), attribute and item assignment. "
                 "[histories] three steps drawn from selection / restrict / get / arithmetic / NumPy function / save+load / DataFrame round trip / set operation with a covering or far operand / merge-then-drop, "
                 "then the statement's clauses on the end result; the same live object on both sides of intersect / set_diff / union / merge_group, operands sharing memory, bypass_check=True; every widened "
-                "object is re-checked after all operations on it")
+                "object is re-checked after all operations on it. "
+                "[table copy / labelled tables] the table returned by .metadata of an IntervalSet / TsdFrame (3 label kinds) / TsGroup (2 key orders) is edited in place in four ways and the object "
+                "re-read; set_info is given a Series / DataFrame whose index names the elements in another order: refused, or attached by label")
     res.exhaustive = True
-    for part in (run_iset_index, run_ctor, run_setops, run_frame, run_group, run_iset_forms, run_ctor_forms, run_frame_forms, run_group_forms):
+    for part in (run_iset_index, run_ctor, run_setops, run_frame, run_group, run_iset_forms, run_ctor_forms, run_frame_forms, run_group_forms, run_table_copy_and_labelled_set_info):
         try:
             part(cx)
         except Exception as ex:  # an exception nobody anticipated: report it against the part, keep the other parts running
